@@ -67,6 +67,9 @@ SEEDED = {
     "V05-A": ["C05", "C03"], "V05-B": ["C05", "C01", "C02"], "V06-A": ["C06"], "V06-B": ["C06"], "V07-A": ["C07", "C11", "C12"], "V07-B": ["C07", "C06"], "V08-A": ["C08"], "V08-B": ["C08", "C17"],
     "V09-A": ["C09", "C17"], "V09-B": ["C09"], "V11-A": ["C11", "C01"], "V11-B": ["C11"], "V12-A": ["C12", "C01", "C11"], "V12-B": ["C12"], "V13-A": ["C13", "C03"], "V13-B": ["C13", "C17"],
     "V14-A": ["C14"], "V14-B": ["C14"], "V15-A": ["C15"], "V15-B": ["C15", "C08"], "V16-A": ["C16"], "V16-B": ["C16"], "V17-A": ["C17", "C03", "C02"], "V17-B": ["C17"],
+    "U01-A": ["C08", "C01"], "U01-B": ["C01", "C11"], "U03-A": ["C03", "C02"], "U03-B": ["C05", "C03"], "U05-A": ["C03", "C05"], "U05-B": ["C05"], "U06-A": ["C06"], "U06-B": ["C06"],
+    "U07-A": ["C06", "C07"], "U07-B": ["C06", "C07"], "U08-A": ["C08"], "U08-B": ["C08"], "U11-A": ["C11", "C01"], "U11-B": ["C11", "C17"], "U12-A": ["C12", "C01"], "U12-B": ["C01", "C12"],
+    "U13-A": ["C13", "C03"], "U13-B": ["C03", "C13"], "U14-A": ["C14", "C04"], "U14-B": ["C04", "C14"], "U15-A": ["C15"], "U15-B": ["C15"], "U16-A": ["C16"], "U16-B": ["C16"], "U17-A": ["C17", "C01"], "U17-B": ["C01", "C17"],
     "C14-A": ["C14"], "C14-B": ["C14"], "C15-A": ["C15"], "C15-B": ["C15"], "C16-A": ["C16"], "C16-B": ["C16"],
 }
 
